@@ -196,6 +196,7 @@ pub fn templates() -> Vec<Template> {
         t("blp", "convert", "nodir-blp", &PNGS, "in/img.png", &["blp", "convert", "in/img.png", "out/nodir/img.blp", "--blp-version", "blp2", "--blp-format", "raw3"], Some(Entry::ImageDecode)).out("out/nodir/img.blp", Entry::BlpLoad).never_ok(),
         // ---- m2
         t("m2", "validate", "no-vertices", &["m2:no-vertices"], "in/model.m2", &["m2", "validate", "in/model.m2"], Some(Entry::M2Validate)).never_ok(),
+        t("m2", "validate", "no-vertices-warnings", &["m2:no-vertices"], "in/model.m2", &["m2", "validate", "in/model.m2", "-w"], Some(Entry::M2Validate)).never_ok(),
         t("m2", "convert", "nodir", &M2S, "in/model.m2", &["m2", "convert", "in/model.m2", "out/nodir/conv.m2", "--version", "wotlk"], Some(Entry::M2Convert { version: s("wotlk") })).out("out/nodir/conv.m2", Entry::M2Load).never_ok(),
         t("m2", "skin-convert", "nodir", &SKINS, "in/model00.skin", &["m2", "skin-convert", "in/model00.skin", "out/nodir/conv.skin", "--version", "cata"], Some(Entry::SkinConvert { version: s("cata") })).out("out/nodir/conv.skin", Entry::SkinLoad).never_ok(),
         t("m2", "anim-convert", "nodir", &ANIMS, "in/a.anim", &["m2", "anim-convert", "in/a.anim", "out/nodir/conv.anim", "--version", "wotlk"], Some(Entry::AnimLoad)).out("out/nodir/conv.anim", Entry::AnimLoad).never_ok(),
